@@ -1575,6 +1575,14 @@ impl<'a> Runtime<'a> {
                 span,
             ));
         }
+        // The cast below saturates, which would turn any larger value into exactly
+        // u32::MAX and let it pass a limit of u32::MAX.
+        if number > f64::from(u32::MAX) {
+            return Err(RuntimeError::new(
+                RuntimeErrorKind::ProcessSpecInvalid("Timeout pass configured limit"),
+                span,
+            ));
+        }
         #[allow(clippy::cast_sign_loss, clippy::cast_possible_truncation)]
         Ok(number as u32)
     }
